@@ -118,6 +118,21 @@ type mEmbeddedLate struct {
 	mBase
 	S string `avp:"V-UTF8String"`
 }
+
+// a group the BASE dictionary defines (Failed-AVP) whose members exist only in the message's own application
+type mBaseGroup struct {
+	F struct {
+		X uint32 `avp:"V-Unsigned32"`
+		S string `avp:"V-UTF8String"`
+	} `avp:"Failed-AVP"`
+	N uint32 `avp:"V-Integer32"`
+}
+
+// an anonymous struct field that carries a tag is one grouped AVP, not a flattened set of fields
+type mEmbeddedTagged struct {
+	mInner `avp:"V-Grouped"`
+	X      uint64 `avp:"V-Unsigned64"`
+}
 type mAVPs struct {
 	A  diam.AVP    `avp:"V-Unsigned32"`
 	P  *diam.AVP   `avp:"V-UTF8String"`
@@ -146,6 +161,8 @@ var mTypes = []mType{
 	{"AVPs", func() interface{} { return &mAVPs{} }},
 	{"VendorOdd", func() interface{} { return &mVendorOdd{} }},
 	{"EmbeddedLate", func() interface{} { return &mEmbeddedLate{} }},
+	{"BaseGroup", func() interface{} { return &mBaseGroup{} }},
+	{"EmbeddedTagged", func() interface{} { return &mEmbeddedTagged{} }},
 }
 
 // ---- building values from a choice vector
@@ -187,6 +204,9 @@ func defByName(name string) (abs.Def, bool) {
 		if d.Name == name {
 			return d, true
 		}
+	}
+	if name == "Failed-AVP" { // base dictionary
+		return abs.Def{App: 0, Code: 279, Vendor: 0, Name: name, Kind: "grouped", Must: "M"}, true
 	}
 	return abs.Def{}, false
 }
@@ -504,9 +524,14 @@ type marshalLine struct {
 	WOK   bool      `json:"wok"`
 	Back2 []mField  `json:"back2"`
 	UErr  string    `json:"uerr"`
+	Re    bool      `json:"re"` // the message already held the AVPs of another value of the same type
 }
 
 func runMarshal(id int, c *marshalCase, ch *chooser, dp *dict.Parser) marshalLine {
+	return runMarshalRe(id, c, ch, dp, false)
+}
+
+func runMarshalRe(id int, c *marshalCase, ch *chooser, dp *dict.Parser, re bool) marshalLine {
 	l := marshalLine{Ev: "marshal", ID: id, Type: c.Type, Vec: c.Vec, Value: []mField{}, AVPs: []abs.AVP{}, Back: []mField{}, Back2: []mField{}}
 	if l.Vec == nil {
 		l.Vec = []int{}
@@ -526,6 +551,13 @@ func runMarshal(id int, c *marshalCase, ch *chooser, dp *dict.Parser) marshalLin
 	l.Used = ch.used
 	l.Value = describe(reflect.ValueOf(src).Elem())
 	m := diam.NewMessage(abs.VCmd, 0x80, abs.VApp, 1, 2, dp)
+	l.Re = re
+	if re {
+		// Marshal replaces what the message holds: an earlier, different value must leave no trace
+		prev := mt.New()
+		fill(reflect.ValueOf(prev).Elem(), &chooser{vec: []int{2, 1, 2, 1, 2, 1, 2, 1, 2, 1, 2, 1}}, abs.Def{})
+		safely(func() { m.Marshal(prev) })
+	}
 	perr := safely(func() {
 		if err := m.Marshal(src); err != nil {
 			l.MErr = err.Error()
@@ -605,6 +637,10 @@ func Marshal(a Args) error {
 			}
 			id++
 			out.Emit(runMarshal(id, &c, &chooser{vec: c.Vec}, vp))
+			if id%3 == 0 {
+				id++
+				out.Emit(runMarshalRe(id, &c, &chooser{vec: c.Vec}, vp, true))
+			}
 			return nil
 		})
 		if err != nil {
